@@ -2340,7 +2340,19 @@ impl Reference
 			None => (steps, 0),
 		};
 
-		let member = steps.iter().rev().find_map(|step| step.get_member());
+		let member_and_position = steps
+			.iter()
+			.enumerate()
+			.rev()
+			.find_map(|(i, step)| step.get_member().map(|member| (member, i)));
+		let (member, steps_after_member) = match member_and_position
+		{
+			Some((member, i)) =>
+			{
+				(Some(member), steps.get((i + 1)..).unwrap_or_default())
+			}
+			None => (None, steps.as_slice()),
+		};
 		let symbol = member.as_ref().unwrap_or(base);
 		let declaration = typer.get_valid_declaration(symbol);
 		let address_error = match (declaration, &value_type, assignment_value)
@@ -2393,7 +2405,15 @@ impl Reference
 			};
 		}
 
-		let member = member.map(|member| (member, value_type.clone()));
+		// The member must have the type that the steps after it lead from.
+		let member = member.map(|member| {
+			let member_type = build_type_of_reference(
+				value_type.clone(),
+				steps_after_member,
+				false,
+			);
+			(member, member_type)
+		});
 
 		let full_type = build_type_of_reference(value_type, &steps, false);
 		let assignment_error = match typer.put_symbol(base, full_type)
